@@ -87,6 +87,7 @@ def main() -> int:
 
                 r = R()
                 lines = [ln for ln in r.stdout.splitlines() if ln.startswith(("VIOLATION", "  clause", "KNOWN", "HARNESS"))]
+                lines.sort(key=lambda ln: ln.startswith(("HARNESS", "KNOWN")))  # violations first
                 detected = r.returncode == 1 and any(ln.startswith("VIOLATION") for ln in lines)
                 print(f"[{spec.get('id')}] check={c} seed={seed} exit={r.returncode} detected={detected}")
                 for ln in lines[:6]:
